@@ -2,7 +2,7 @@
    Only statements closed by `exact`, each followed by Print Assumptions. *)
 From Coq Require Import ZArith List Bool.
 From MV Require Import Topo.CheckMeshDefs Topo.CheckMesh Topo.PipelineDefs Topo.Pipeline Topo.HalfedgeDefs Topo.HalfedgeSmall
-  Topo.EdgeOpsDefs Topo.EdgeOps Topo.PipelineRows Topo.Gate Topo.Compaction Topo.UmbrellaDefs Topo.Umbrella.
+  Topo.EdgeOpsDefs Topo.EdgeOps Topo.PipelineRows Topo.Gate Topo.Compaction Topo.UmbrellaDefs Topo.Umbrella Topo.DedupeDetectDefs Topo.DedupeDetect.
 From Coq Require Import Permutation Sorted.
 Import ListNotations.
 Local Open Scope Z_scope.
@@ -258,3 +258,27 @@ Example pinched_vertex_rejected :
   let t := [(0,2,1); (0,3,2); (0,1,3); (1,2,3); (0,5,4); (0,6,5); (0,4,6); (4,5,6)] in
   check_mesh 7 t = true /\ check_vertex_manifold 7 t = false.
 Proof. exact pinched_example. Qed.
+
+(* The duplicate-detection loop of Impl::DedupeEdges (first orbit: smallest halfedge per end vertex, kept
+   in a vector searched linearly up to `threshold` = 32 distinct neighbours and in a hash map after that;
+   second orbit: flag every halfedge that is not the recorded one), ported in Topo/DedupeDetectDefs.v.
+   For every orbit and every two thresholds the same halfedges are flagged (mode independence), and they
+   are exactly all but the smallest halfedge of each group with equal end vertex.  The seeded change that
+   skipped the second orbit unless the LINEAR branch had seen a duplicate contradicts this statement for
+   orbits whose first repeat comes after the switch.  Tie: the loop's `duplicates` vector is not observable
+   without a hook; behaviourally covered by the Impl-level CleanupTopology oracle (fans of 3..69 triangles). *)
+Theorem dedupe_detect_mode_independent :
+  forall (threshold1 threshold2 : nat) (orbit : list (Z * Z)),
+    flagged threshold1 orbit = flagged threshold2 orbit.
+Proof. exact flagged_mode_independent_lemma. Qed.
+Print Assumptions dedupe_detect_mode_independent.
+
+Theorem dedupe_detect_meets_spec :
+  forall (threshold : nat) (orbit : list (Z * Z)), flagged threshold orbit = flagged_spec orbit.
+Proof. exact flagged_meets_spec_lemma. Qed.
+Print Assumptions dedupe_detect_meets_spec.
+
+Example dedupe_detect_example :
+  (* end vertices 7,8,9,7,8 at halfedges 30,12,5,4,40; threshold 2 switches to the map after the third entry *)
+  flagged 2 [(7,30); (8,12); (9,5); (7,4); (8,40)] = [30; 40] /\ flagged 32 [(7,30); (8,12); (9,5); (7,4); (8,40)] = [30; 40].
+Proof. vm_compute. split; reflexivity. Qed.
